@@ -999,12 +999,13 @@ SCALE_SHAPES = {
               "ring+held:50000", "chords+held:50000", "wheel+held:20000", "clique+held:200",
               "ring+near:50000", "chords+near:50000", "wheel+near:20000", "ring+near:20",
               "wheel+same:20000", "clique+same:200", "chords+same:50000", "wheel+same:150",
-              "chain:3000", "chain2ring:5000"],
+              "chain:3000", "chain2ring:5000", "star:20000", "star+same:20000", "star+same:200", "star+held:20000"],
     "thorough": ["ring:1000", "ring:300000", "ring:1000000", "chords:500000", "wheel:5000", "wheel:60000", "wheel:200000",
                  "clique:300", "clique:1000", "ring+held:300000", "chords+held:300000", "wheel+held:100000", "clique+held:700",
                  "ring+near:300000", "chords+near:300000", "wheel+near:100000", "ring+near:20", "ring+near:100",
                  "wheel+same:100000", "clique+same:700", "chords+same:300000", "wheel+same:150", "wheel+same:1000",
-                 "chain:3000", "chain:10000", "chain2ring:5000", "chain2ring:30000"],
+                 "chain:3000", "chain:10000", "chain2ring:5000", "chain2ring:30000",
+                 "star:200000", "star+same:200000", "star+same:200", "star+same:3000", "star+held:100000"],
 }
 
 
